@@ -64,7 +64,8 @@ def run_property(pid, tier, seed, jobs):
         print(f"HARNESS-ERROR property={pid} no cases for tier {tier}")
         return EXIT_HARNESS
     opts = {"timeout_ms": int(os.environ.get("VERIF_SOLVER_TIMEOUT_MS", 30000 if tier == "quick" else 120000)),
-            "seed": seed, "profile": True, "fail_fast": True}
+            "seed": seed, "profile": True, "fail_fast": True,
+            "path_timeout_s": int(os.environ.get("VERIF_PATH_TIMEOUT_S", 600 if tier == "quick" else 1800))}
     chunk = 6 if tier == "quick" else 12
     per_case = {c.name: {"case": c, "paths": [], "errors": [], "pending": 0, "wall": 0.0, "ops": set()} for c in cases}
     ctx = mp.get_context("spawn")
